@@ -289,7 +289,8 @@ class ExprMixin(object):
                 return None
             if isinstance(a, ClsRef) and isinstance(b, ClsRef):
                 return a.cls is b.cls
-            solid = (Obj, ClsRef, EnumVal, FuncRef, Bound, ListObj, DictObj, TupleT)
+            solid = (Obj, ClsRef, EnumVal, FuncRef, Bound, ListObj, DictObj, TupleT, ExcVal,
+                     LambdaRef, GenObj, Fmt)
             if isinstance(a, Const) and a.value is None and isinstance(b, solid):
                 return False
             if isinstance(b, Const) and b.value is None and isinstance(a, solid):
@@ -299,6 +300,19 @@ class ExprMixin(object):
             if isinstance(b, EnumVal) and isinstance(a, Const):
                 return False
             return None
+        if op in ('==', 'is', '!=', 'is not') and (isinstance(l, Phi) or isinstance(r, Phi)):
+            # a join whose alternatives all give the same verdict has that verdict
+            # (in particular a value with one alternative and an origin)
+            ls = l.terms() if isinstance(l, Phi) else [l]
+            rs = r.terms() if isinstance(r, Phi) else [r]
+            if len(ls) * len(rs) <= 64:
+                verdicts = set()
+                for a in ls:
+                    for b_ in rs:
+                        c = self.compare(op, a, b_)
+                        verdicts.add(c.value if isinstance(c, Const) else None)
+                if len(verdicts) == 1 and None not in verdicts:
+                    return Const(verdicts.pop())
         if op in ('==', 'is', '!=', 'is not'):
             i = ident(l, r)
             if i is not None and not (op in ('==', '!=') and
@@ -401,7 +415,17 @@ class ExprMixin(object):
 
     def obj_attr(self, obj, name, node):
         if name in obj.fields:
-            return obj.fields[name]
+            v = obj.fields[name]
+            heads = getattr(self, 'loop_heads', [])
+            if name in self.p.mutable_fields and heads and \
+                    (obj.site is None or obj.site < heads[-1]) and \
+                    not isinstance(v, (Obj, ListObj, DictObj, GenObj, Bound, FuncRef)):
+                # a field that is re-assigned somewhere, of an object created before the
+                # innermost loop around this read, whose body is analysed once: a store
+                # later in the body reaches this read in the next iteration -- the value
+                # is one of those seen so far, or unknown
+                return join(v, LoopVar('%s.%s' % (obj.cls.name, name), obj.site))
+            return v
         if name == '__class__':
             return ClsRef(obj.cls)
         mem = self.find_member(obj.cls, name)
@@ -525,7 +549,7 @@ class ExprMixin(object):
             if not isinstance(idx, Slice) and base.items:
                 if self.cur is not None:
                     self.emit('lookup', node, {'list': base, 'key': idx})
-                return join(*base.items)
+                return strip_origins(join(*base.items))
         if isinstance(base, DictObj):
             hits = []
             decided = True
@@ -586,6 +610,8 @@ class ExprMixin(object):
                 return
             gen = e.generators[i]
             it = self.ev(gen.iter)
+            if isinstance(it, Phi) and len(it.alts) == 1:
+                it = it.alts[0][0]        # one alternative (with its origin): the value
             if kind == 'list' and len(e.generators) == 1 and not gen.ifs and \
                     (isinstance(it, TupleT) or (isinstance(it, ListObj) and not it.open)) \
                     and len(it.items) <= 8 and \
@@ -767,6 +793,54 @@ class ExprMixin(object):
                         rt.append((name, join(*yes)))
                     if no:
                         rf.append((name, join(*no)))
+        # the same tests on a field of a local whose alternatives are objects with that
+        # field (result records such as (error, value)): the alternatives of the *local*
+        # that are consistent with the outcome remain
+        def attr_of_local(x):
+            return isinstance(x, ast.Attribute) and isinstance(x.value, ast.Name) and \
+                isinstance(self.frame.env.lookup(x.value.id), Phi)
+
+        def split_by_field(x, verdict):
+            name = x.value.id
+            cur = self.frame.env.lookup(name)
+            yes, no = [], []
+            for a, o in cur.alts:
+                fv = a.fields.get(x.attr) if isinstance(a, Obj) else None
+                r = verdict(fv) if fv is not None else None
+                if r is not False:
+                    yes.append((a, o))
+                if r is not True:
+                    no.append((a, o))
+            if len(yes) < len(cur.alts) or len(no) < len(cur.alts):
+                if yes:
+                    rt.append((name, join(*yes)))
+                if no:
+                    rf.append((name, join(*no)))
+        if isinstance(e, ast.Compare) and len(e.ops) == 1 and attr_of_local(e.left):
+            other = self.ev_quiet(e.comparators[0])
+            op = CMPOPS.get(type(e.ops[0]))
+            if op in ('is', 'is not', '==', '!=') and other is not None:
+                def verdict(fv, _op=op, _other=other):
+                    rs = set()
+                    for a in (fv.terms() if isinstance(fv, Phi) else [fv]):
+                        c = self.compare('==' if _op in ('==', '!=') else 'is', a, _other)
+                        rs.add(bool(c.value) if isinstance(c, Const) else None)
+                    if len(rs) != 1 or None in rs:
+                        return None
+                    r = rs.pop()
+                    return (not r) if _op in ('is not', '!=') else r
+                split_by_field(e.left, verdict)
+        if attr_of_local(e):
+            split_by_field(e, lambda fv: truth(fv))
+        if isinstance(e, ast.Call) and isinstance(e.func, ast.Name) and \
+                e.func.id == 'isinstance' and len(e.args) == 2 and attr_of_local(e.args[0]):
+            clsv = self.ev_quiet(e.args[1])
+            if clsv is not None:
+                def verdict_i(fv, _c=clsv):
+                    rs = set(self.isinstance_of(a, _c)
+                             for a in (fv.terms() if isinstance(fv, Phi) else [fv]))
+                    return rs.pop() if len(rs) == 1 else None
+                split_by_field(e.args[0], verdict_i)
         # bare name truthiness
         if isinstance(e, ast.Name):
             cur = self.frame.env.lookup(e.id)
